@@ -52,10 +52,11 @@ type params struct {
 	connbuf int
 	early   bool // start handing off before the connection attempt has been answered
 	late    bool // start handing off while a later reconnect attempt is in progress
+	admin   bool // an admin thread changes the destination's address (a dial that hangs) while traffic flows
 }
 
 func (p params) String() string {
-	return fmt.Sprintf("endpoint=%s lines=%d iobuf=%d connbuf=%d early=%v late=%v", behaviours[p.beh].name, p.nlines, p.iobuf, p.connbuf, p.early, p.late)
+	return fmt.Sprintf("endpoint=%s lines=%d iobuf=%d connbuf=%d early=%v late=%v admin=%v", behaviours[p.beh].name, p.nlines, p.iobuf, p.connbuf, p.early, p.late, p.admin)
 }
 
 type exec struct {
@@ -85,6 +86,13 @@ func (e *exec) Body() {
 	if e.p.late {
 		// the first attempt (answered after 120 s) has failed, the reconnect ticker (5 s) has started the next one
 		vrt.Sleep(126 * time.Second)
+	}
+	if e.p.admin {
+		// "modDest r 0 addr=..." from the admin interface: the new address does not answer for 120 s
+		e.net.DialDelay = 120 * time.Second
+		vrt.GoNamed("admin", func() {
+			rt.UpdateDestination(0, map[string]string{"addr": "10.1.1.1:2003"})
+		})
 	}
 	c0 := counters(d.Key)
 	var lines []string
@@ -128,6 +136,9 @@ func (e *exec) Body() {
 	if len(other.Lines) != e.p.nlines {
 		e.viol = "the other route did not get every line"
 		return
+	}
+	if e.p.admin {
+		return // only the hand-off bound is judged while the address is being changed
 	}
 	switch behaviours[e.p.beh].name {
 	case "healthy":
@@ -188,6 +199,12 @@ func main() {
 					p := params{beh: b, nlines: 6, iobuf: iobuf, connbuf: connbuf, early: early}
 					scns = append(scns, &vrt.Scenario{Name: p.String(), Cfg: vrt.Config{MaxSteps: 30000, Horizon: 10 * time.Minute}, Model: vrt.CostDelay, Bound: bound,
 						New: func() vrt.Exec { return &exec{p: p} }})
+					if behaviours[b].name == "healthy" && !early {
+						q := p
+						q.admin = true
+						scns = append(scns, &vrt.Scenario{Name: q.String(), Cfg: vrt.Config{MaxSteps: 30000, Horizon: 20 * time.Minute}, Model: vrt.CostDelay, Bound: bound,
+							New: func() vrt.Exec { return &exec{p: q} }})
+					}
 					if behaviours[b].name == "dial-hangs-then-refused" && !early {
 						q := p
 						q.late = true
